@@ -11,7 +11,7 @@ from hypothesis import strategies as st
 from vf import lab, oracle
 from vf.core import Prop, Outcome, fd
 
-from deep.api.tracepoint.trigger import Trigger, LineLocation, LocationAction, Location
+from deep.api.tracepoint.trigger import Trigger, LineLocation, LocationAction, Location, build_trigger
 
 PATH, LINE = 'c05_target.py', 3
 
@@ -206,7 +206,7 @@ class C05(Prop):
             '3000 chars, objects whose str() is long, cycles, aliases) in generated order x the four limits '
             '(MAX_VARIABLES 0-60, MAX_STRING_LENGTH 0-64, MAX_COLLECTION_SIZE 0-12, MAX_VAR_DEPTH 1-7) x watches on big '
             'values; non-trivial = the graph exceeds at least one limit; distinct = distinct recipe')
-    assumptions = ['limits are put in the LocationAction config where SnapshotActionContext.collection_config reads them',
+    assumptions = ['limits are given both ways: in the LocationAction config where SnapshotActionContext.collection_config reads them, and as tracepoint arguments (text) through build_trigger',
                    'depth: locals count as depth 1; "at most max depth" is read as <= (the weakest reading)',
                    'set elements are not ordered by the statement: they are count-checked only',
                    'the 100 ms processing budget is neutralised by the virtual clock except where it is jumped on purpose']
@@ -232,6 +232,8 @@ class C05(Prop):
             # a deferred snapshot: completed by the return event with the returned value captured into the same table
             'capture': st.sampled_from([None, None, 'small', 'big', 'big']),
             # the fields of the snapshot's log message are evaluated and recorded on the same snapshot
+            # where the limits are put: into the action's configuration directly, or into the tracepoint's arguments
+            'route': st.sampled_from(['config', 'args']),
             'log_fields': st.one_of(st.just([]), st.lists(st.sampled_from(
                 ['list(big)', "'q' * 90", 'tuple(big)', 'v0', '[[k] for k in big]', 'str(big)']), max_size=3)),
         })
@@ -257,8 +259,15 @@ class C05(Prop):
         if recipe.get('capture'):
             cfg['stage'] = 'line_capture'
             out.cls('deferred_capture')
-        act = LocationAction('tp', None, cfg, LocationAction.ActionType.Snapshot)
-        trig = Trigger(LineLocation(PATH, LINE, Location.Position.START), [act])
+        if recipe.get('route') == 'args':
+            # the way a user configures a tracepoint: its arguments (text, as the service and register_tracepoint take
+            # them), turned into a trigger by the agent itself
+            out.cls('limits_given_as_tracepoint_arguments')
+            args = {k: str(v) for k, v in cfg.items() if k != 'watches'}
+            trig = build_trigger('tp', PATH, LINE, args, list(recipe['watches']), [])
+        else:
+            act = LocationAction('tp', None, cfg, LocationAction.ActionType.Snapshot)
+            trig = Trigger(LineLocation(PATH, LINE, Location.Position.START), [act])
         handler, _, push = lab.make_handler([trig])
         if recipe['jump_clock']:
             lab.CLOCK.auto = 60_000_000          # 60 ms per clock read: the processing budget runs out mid-way
